@@ -35,6 +35,25 @@
 (* negative when D is a power of two, so that the entries stay dyadic);      *)
 (* theorem PsdPower: (A^(r/6))^6 = A^r.  A planted negative eigenvalue must  *)
 (* be reported by an error.                                                  *)
+(*                                                                          *)
+(* "singpsd".  Exactly singular positive SEMI-definite matrices (theorem     *)
+(* SingularPsd: symmetric, every principal minor >= 0, a kernel of the       *)
+(* stated dimension, a positive principal minor of the complementary size).  *)
+(* The documentation of PowPSD: "returns an error if the matrix is not       *)
+(* positive symmetric definite" - for EVERY power, also the non-negative     *)
+(* ones.  Two classes:                                                       *)
+(*   exact  (zero matrix, diagonal matrices with 1 or 2 zero entries, a      *)
+(*          positive definite block bordered by a zero first and / or last   *)
+(*          row and column): the zero eigenvalue belongs to a coordinate     *)
+(*          vector e_z and row / column z is never the pivot row of a        *)
+(*          Householder step of a tridiagonal reduction (first and last      *)
+(*          index; for a diagonal matrix every step is the identity), so     *)
+(*          every operation a symmetric eigensolver performs on that row /   *)
+(*          column is on exact zeros, the 1x1 block deflates and the         *)
+(*          computed eigenvalue IS 0: the error is a must;                    *)
+(*   planted (H diag(d) H^T / n with one or two d = 0): the computed          *)
+(*          eigenvalue is 0 up to a rounding residue of either sign, so       *)
+(*          neither the error nor its absence can be promised ("either").    *)
 EXTENDS IntMat, FiniteSets, TLC, Json
 
 CONSTANTS Seed, NVariants, Emit
@@ -224,14 +243,14 @@ PsdRec(n, t) ==
    pows |-> [i \in 1..Len(es) |-> LET pw == PsdPow(n, d, es[i]) IN
                [rnum |-> es[i], rden |-> 6, num |-> pw.num, den |-> pw.den,
                 tolUnits |-> PsdTolUnits(n, d), tolScale |-> PsdTolScale(n, d, es[i])]],
-   unitExp |-> -52, ok |-> TRUE]
+   unitExp |-> -52, ok |-> TRUE, either |-> FALSE]
 \* a planted negative (or zero) eigenvalue: the documented answer is an error
 NotPsdRec(n, t) ==
   LET d == [i \in 1..n |-> IF i = 1 + (t % n) THEN (IF t % 2 = 0 THEN -1 ELSE -4) ELSE 1 + ((i + t + Seed) % 3)] IN
   [k |-> "powpsd", n |-> n, t |-> t, anum |-> Conj(n, d), aden |-> n, root |-> d,
    pows |-> <<[rnum |-> 3, rden |-> 6, num |-> ZeroM(n), den |-> 1, tolUnits |-> 0, tolScale |-> 0],
               [rnum |-> 12, rden |-> 6, num |-> ZeroM(n), den |-> 1, tolUnits |-> 0, tolScale |-> 0]>>,
-   unitExp |-> -52, ok |-> FALSE]
+   unitExp |-> -52, ok |-> FALSE, either |-> FALSE]
 PsdPlanted(n, t) ==
   LET H == Had(n)  d == PsdRoot(n, t)  d6 == [i \in 1..n |-> d[i] ^ 6] IN
   /\ MatMul(Transp(H), H) = MatScale(n, Ident(n))
@@ -248,6 +267,64 @@ PsdPower(n, t) ==
   /\ (t % 2 = 0) => \A a \in {1, 2, 3} :
         MatMul(Conj(n, pw(a)), Conj(n, [i \in 1..n |-> (DMax(d) \div d[i]) ^ a])) = MatScale(n * n * (DMax(d) ^ a), Ident(n))
 
+(******************************** "singpsd" *********************************)
+SingKinds == {"zero", "diag", "block", "had"}
+SingExact(kind) == kind # "had"
+\* positions of the zero eigen-directions (mult of them, distinct for mult <= n)
+ZeroPos(n, t, mult) == {1 + ((t + q) % n) : q \in 0..mult - 1}
+\* border positions (first and / or last index) for the "block" kind
+BorderPos(n, t, mult) == IF mult = 2 THEN {1, n} ELSE IF t % 2 = 0 THEN {1} ELSE {n}
+KernelPos(kind, n, t, mult) == IF kind = "block" THEN BorderPos(n, t, mult) ELSE ZeroPos(n, t, mult)
+\* a dense positive definite block: G^T G + I for an integer G (theorem SingularPsd re-checks it through the minors)
+PdGen(k, t) == [i \in 1..k |-> [j \in 1..k |-> (((i * (t + 1) + j * ((Seed % 5) + 2) + i * j + t) % 5) - 2)]]
+PdBlock(k, t) == MatAdd(MatMul(Transp(PdGen(k, t)), PdGen(k, t)), Ident(k))
+\* B next to zero rows / columns at the positions Z
+EmbedZ(B, Z) == LET n == Len(B) + Cardinality(Z)
+                    o(i) == Cardinality({p \in 1..i : p \notin Z})
+                IN [i \in 1..n |-> [j \in 1..n |-> IF i \in Z \/ j \in Z THEN 0 ELSE B[o(i)][o(j)]]]
+SingDiag(n, t, mult) == [i \in 1..n |-> IF i \in ZeroPos(n, t, mult) THEN 0 ELSE 1 + ((i * (t + 2) + Seed) % 9)]
+SingHadD(n, t, mult) == [i \in 1..n |-> IF i \in ZeroPos(n, t, mult) THEN 0 ELSE 1 + ((i + t + Seed) % 4)]
+\* numerators (over SingDen) of the matrix
+SingNum(kind, n, t, mult) ==
+  CASE kind = "zero"  -> ZeroM(n)
+    [] kind = "diag"  -> DiagM(SingDiag(n, t, mult))
+    [] kind = "block" -> EmbedZ(PdBlock(n - mult, t), BorderPos(n, t, mult))
+    [] kind = "had"   -> Conj(n, SingHadD(n, t, mult))
+SingDen(kind, n) == IF kind = "had" THEN n ELSE 1
+SingMult(kind, n, mult) == IF kind = "zero" THEN n ELSE mult
+\* a basis of the kernel: coordinate vectors, resp. columns of H
+SingKernel(kind, n, t, mult) ==
+  IF kind = "zero" THEN {[i \in 1..n |-> IF i = z THEN 1 ELSE 0] : z \in 1..n}
+  ELSE IF kind = "had" THEN {[i \in 1..n |-> Had(n)[i][z]] : z \in ZeroPos(n, t, mult)}
+  ELSE {[i \in 1..n |-> IF i = z THEN 1 ELSE 0] : z \in KernelPos(kind, n, t, mult)}
+SingOK(kind, n, t, mult) ==
+  CASE kind = "zero"  -> mult = 1 /\ n <= 4
+    [] kind = "diag"  -> mult < n
+    [] kind = "block" -> n - mult >= 2
+    [] kind = "had"   -> n \in {2, 4} /\ mult < n
+SingExps == <<-12, -6, -3, 0, 3, 6, 12>>       \* powers -2, -1, -1/2, 0, 1/2, 1, 2
+SingRec(kind, n, t, mult) ==
+  [k |-> "powpsd", kind |-> kind, n |-> n, t |-> t, anum |-> SingNum(kind, n, t, mult), aden |-> SingDen(kind, n),
+   root |-> IF kind = "diag" THEN SingDiag(n, t, mult) ELSE IF kind = "had" THEN SingHadD(n, t, mult) ELSE <<>>,
+   zeroEigs |-> SingMult(kind, n, mult),
+   pows |-> [i \in 1..Len(SingExps) |-> [rnum |-> SingExps[i], rden |-> 6, num |-> ZeroM(n), den |-> 1, tolUnits |-> 0, tolScale |-> 0]],
+   unitExp |-> -52, ok |-> FALSE, either |-> ~SingExact(kind)]
+\* theorem: symmetric, positive semi-definite (every principal minor is >= 0), the kernel contains `zeroEigs` independent
+\* vectors (coordinate vectors / orthogonal Hadamard columns), and the rank is exactly n - zeroEigs (a positive principal minor
+\* of that size): the smallest eigenvalue is exactly 0 with that multiplicity, all others are positive
+SubSeqOf(n, S) == SelectSeq([i \in 1..n |-> i], LAMBDA i : i \in S)
+PrincipalMinor(A, S) == LET ix == SubSeqOf(Len(A), S) IN Det([i \in 1..Len(ix) |-> [j \in 1..Len(ix) |-> A[ix[i]][ix[j]]]])
+SingularPsd(kind, n, t, mult) ==
+  LET A == SingNum(kind, n, t, mult)  z == SingMult(kind, n, mult)  K == SingKernel(kind, n, t, mult) IN
+  /\ IsSymmetric(A)
+  /\ \A S \in SUBSET (1..n) : PrincipalMinor(A, S) >= 0
+  /\ Cardinality(K) = z /\ \A v \in K : MatVec(A, v) = [i \in 1..n |-> 0]
+  /\ \A v, w \in K : v # w => Dot(v, w) = 0
+  /\ \E S \in SUBSET (1..n) : Cardinality(S) = n - z /\ PrincipalMinor(A, S) > 0
+  /\ Det(A) = 0
+  \* exact class: the kernel vectors are coordinate vectors, i.e. A has zero rows and columns there
+  /\ SingExact(kind) => \A v \in K : \A i \in 1..n : v[i] = 1 => \A j \in 1..n : A[i][j] = 0 /\ A[j][i] = 0
+
 (********************************* cases ************************************)
 Cases ==
   {[fam |-> "exp", kind |-> kd, n |-> n, t |-> t, ti |-> ti, side |-> s] :
@@ -260,6 +337,8 @@ Cases ==
        kd \in PowKinds, n \in 1..4, t \in 0..NVariants - 1}
   \cup {[fam |-> "powpsd", kind |-> "", n |-> n, t |-> t, ti |-> 0, side |-> 0] : n \in {1, 2, 4}, t \in 0..(2 * NVariants) - 1}
   \cup {[fam |-> "notpsd", kind |-> "", n |-> n, t |-> t, ti |-> 0, side |-> 0] : n \in {1, 2, 4}, t \in 0..NVariants - 1}
+  \cup {[fam |-> "singpsd", kind |-> kd, n |-> n, t |-> t, ti |-> mult, side |-> 0] :
+       kd \in SingKinds, n \in 1..5, t \in 0..NVariants - 1, mult \in {1, 2}}
 
 Init == c \in Cases
 Next == UNCHANGED vars
@@ -272,6 +351,7 @@ Theorems ==
                               (ExpInverse(c.kind, c.n, c.t, c.ti, c.side) /\ ScalePlaced(c.kind, c.n, c.t, c.ti, c.side))
     [] c.fam = "pow" -> (c.n \in PowSizes(c.kind)) => (PowSplit(c.kind, c.n, c.t) /\ PowPeriod(c.kind, c.n, c.t))
     [] c.fam = "powpsd" -> PsdPlanted(c.n, c.t) /\ PsdPower(c.n, c.t)
+    [] c.fam = "singpsd" -> SingOK(c.kind, c.n, c.t, c.ti) => SingularPsd(c.kind, c.n, c.t, c.ti)
     [] OTHER -> TRUE
 
 EmitCase ==
@@ -280,4 +360,5 @@ EmitCase ==
             [] c.fam = "pow" -> ((c.n \in PowSizes(c.kind)) => PrintT(ToJson(PowRec(c.kind, c.n, c.t))))
             [] c.fam = "powpsd" -> PrintT(ToJson(PsdRec(c.n, c.t)))
             [] c.fam = "notpsd" -> PrintT(ToJson(NotPsdRec(c.n, c.t)))
+            [] c.fam = "singpsd" -> (SingOK(c.kind, c.n, c.t, c.ti) => PrintT(ToJson(SingRec(c.kind, c.n, c.t, c.ti))))
 =============================================================================
